@@ -1,36 +1,67 @@
-"""Confirm a behaviour-preserving refactoring (tests unchanged, equivalence
-demonstration passes) in a fresh scratch worktree and run every claimed check
-against it: all of them must stay silent (exit 0)."""
-import json, os, subprocess, sys, tempfile
+"""Confirm a behaviour-preserving refactoring stored under /verif/twins/<id>/
+and run every claimed check against it: all of them must stay silent of
+VIOLATION lines (exit 0, or exit 2 when an anchor can no longer be followed).
+
+  python tools/eval_twin.py <id> [<dir>] [--notest] [--noequiv]
+
+The twin's own equivalence demonstration (equiv.py, written by the sub-agent
+that produced the refactoring) compares the pristine package with the
+refactored one in two subprocesses; it expects the pristine copy at
+/tmp/twinsA/<Cxx>/orig and the refactored tree at /tmp/wt/<Cxx>.  Both are
+created here as scratch git worktrees of /repo and removed afterwards.
+"""
+import json
+import os
+import shutil
+import subprocess
+import sys
+
 sid = sys.argv[1]
-src = sys.argv[2]
-wt = tempfile.mkdtemp(prefix='twinwt-')
-os.rmdir(wt)
+args = [a for a in sys.argv[2:] if not a.startswith('--')]
+src = args[0] if args else '/verif/twins/' + sid
+prop = sid.split('-')[0]
+base = '/tmp/twinsA/%s' % prop
+orig = base + '/orig'
+wt = '/tmp/wt/%s' % prop
 
 
-def sh(cmd, cwd=None, timeout=1500):
+def sh(cmd, cwd=None, timeout=3000):
     r = subprocess.run(cmd, shell=True, cwd=cwd, capture_output=True,
                        text=True, timeout=timeout)
     return r.returncode, (r.stdout + r.stderr)
 
 
 res = {'id': sid}
+made = []
 try:
-    sh('git -C /repo worktree add -q --detach %s HEAD' % wt)
+    os.makedirs(base, exist_ok=True)
+    for path in (orig, wt):
+        if os.path.exists(path):
+            sh('git -C /repo worktree remove --force %s' % path)
+            shutil.rmtree(path, ignore_errors=True)
+        os.makedirs(os.path.dirname(path), exist_ok=True)
+        sh('git -C /repo worktree add -q --detach %s HEAD' % path)
+        made.append(path)
     rc, out = sh('git apply %s/patch.diff' % src, cwd=wt)
     res['apply'] = rc
     if rc != 0:
         res['apply_err'] = out[-300:]
     if '--notest' not in sys.argv:
         rc, out = sh('/venv/bin/python -m pytest -q -p no:cacheprovider '
-                     '--timeout=900 test 2>&1 | tail -3', cwd=wt)
+                     'test 2>&1 | tail -3', cwd=wt)
         res['tests'] = out.strip().splitlines()[-1] if out.strip() else ''
+    if '--noequiv' not in sys.argv and os.path.exists(src + '/equiv.py'):
+        shutil.copy(src + '/equiv.py', base + '/equiv.py')
+        rc, out = sh('/venv/bin/python equiv.py', cwd=base, timeout=3000)
+        res['equiv_exit'] = rc
+        res['equiv_msg'] = out.strip().splitlines()[-1][:200] \
+            if out.strip() else ''
     man = json.load(open('/verif/MANIFEST.json'))
     fired = {}
     for c in man['checks']:
         pid = c['property_id']
         rc, out = sh('/venv/bin/python -m ttsa check %s --repo %s '
-                     '--no-evidence' % (pid, wt), cwd='/verif', timeout=600)
+                     '--no-evidence' % (pid, wt), cwd='/verif', timeout=900)
         if rc != 0:
             lines = [l for l in out.splitlines()
                      if ('[' in l and ']' in l and '::' in l) or
@@ -38,5 +69,13 @@ try:
             fired[pid] = {'exit': rc, 'report': [l[:300] for l in lines[:4]]}
     res['alarms'] = fired
 finally:
-    sh('git -C /repo worktree remove --force %s' % wt)
+    for path in made:
+        sh('git -C /repo worktree remove --force %s' % path)
+        shutil.rmtree(path, ignore_errors=True)
+    if '--keep' not in sys.argv:
+        for f in ('equiv.py',):
+            try:
+                os.remove(base + '/' + f)
+            except OSError:
+                pass
 print(json.dumps(res, indent=1))
